@@ -730,7 +730,10 @@ Fixpoint upd_nth {A : Type} (l : list A) (i : nat) (x : A) : list A :=
 Definition set_init (n : node) (init : list nat) : node :=
   {| n_cls := n_cls n; n_fields := n_fields n; n_pre := n_pre n; n_init := init; n_sealed := n_sealed n |}.
 
-(* sealing: every configuration the walk went through becomes read-only *)
+(* sealing: every configuration the walk went through becomes read-only.  The flag only
+   matters to set(): EVERY validation walks sealed configurations like the others - sealed
+   does not mean validated: load_objects seals what it loads without validating it, and a
+   task sealed by instance() gets its init tasks afterwards, at submit                   *)
 Definition with_sealed (n : node) (b : bool) : node :=
   {| n_cls := n_cls n; n_fields := n_fields n; n_pre := n_pre n; n_init := n_init n; n_sealed := b |}.
 Fixpoint seal_from (i : nat) (vis : list nat) (h : heap) : heap :=
